@@ -76,9 +76,21 @@ func ruleExponentSum(w *World, r *RuleResult) {
 			continue
 		}
 		hit := false
+		var per []string
 		for _, v := range rt.Results {
 			if bits, isK := condBits(v); isK && typeIs(v.Type(), apdPath, "Condition") && bits&sys != 0 && bits < 1<<12 {
 				hit = true
+			}
+			// … or the non-zero outcome of a classifying helper applied to a value
+			if hc, isC := v.(*ssa.Call); isC && typeIs(v.Type(), apdPath, "Condition") && w.isErrorReturn(rt) {
+				if _, okc := w.constResultsOf(v); okc {
+					hit = true
+					for _, a := range hc.Common().Args {
+						if bareElem(a) {
+							per = append(per, w.exprOf(f, v).String())
+						}
+					}
+				}
 			}
 		}
 		if !hit {
@@ -86,7 +98,6 @@ func ruleExponentSum(w *World, r *RuleResult) {
 		}
 		n++
 		key := fmt.Sprintf("(*Decimal).setExponent | system-limit return #%d is decided on the sum", n)
-		var per []string
 		for _, g := range guardsAt(b) {
 			bo, isB := g.Cond.(*ssa.BinOp)
 			if !isB {
@@ -143,7 +154,60 @@ func ruleExponentSum(w *World, r *RuleResult) {
 		}
 		walk(st.Val, 0)
 		upper, lower := false, false
+		// bounds established on value `other` (of function fn) by the guard g
+		bound := func(g Guard, isSrc func(ssa.Value) bool) {
+			bo, isB := g.Cond.(*ssa.BinOp)
+			if !isB {
+				return
+			}
+			for oi, o := range []ssa.Value{bo.X, bo.Y} {
+				k, isK := o.(*ssa.Const)
+				if !isK || (ci(k) != maxE && ci(k) != -maxE) {
+					continue
+				}
+				other, op := bo.Y, bo.Op
+				if oi == 1 {
+					other = bo.X
+				} else {
+					op = map[token.Token]token.Token{token.LSS: token.GTR, token.GTR: token.LSS, token.LEQ: token.GEQ, token.GEQ: token.LEQ}[op]
+				}
+				if !isSrc(other) {
+					continue
+				}
+				if ci(k) == maxE && ((op == token.GTR && !g.Val) || (op == token.LEQ && g.Val)) {
+					upper = true
+				}
+				if ci(k) == -maxE && ((op == token.LSS && !g.Val) || (op == token.GEQ && g.Val)) {
+					lower = true
+				}
+			}
+		}
 		for _, g := range guardsAt(st.Block()) {
+			// through a classifying helper: h(v) == 0 where h returns 0 only inside the limits
+			if bo, isB := g.Cond.(*ssa.BinOp); isB && (bo.Op == token.EQL || bo.Op == token.NEQ) {
+				for _, pair := range [][2]ssa.Value{{bo.X, bo.Y}, {bo.Y, bo.X}} {
+					hc, isC := pair[0].(*ssa.Call)
+					k0, isK := pair[1].(*ssa.Const)
+					if !isC || !isK || k0.Value == nil || ci(k0) != 0 || (bo.Op == token.EQL) != g.Val {
+						continue
+					}
+					h := callee(hc)
+					if h == nil || !w.inPkg(h) || len(h.Params) != 1 || len(hc.Common().Args) != 1 || !src[hc.Common().Args[0]] {
+						continue
+					}
+					for _, hb := range h.Blocks {
+						rt, isRet := hb.Instrs[len(hb.Instrs)-1].(*ssa.Return)
+						if !isRet || len(rt.Results) != 1 {
+							continue
+						}
+						if kr, isKr := rt.Results[0].(*ssa.Const); isKr && kr.Value != nil && ci(kr) == 0 {
+							for _, hg := range guardsAt(hb) {
+								bound(hg, func(v ssa.Value) bool { return v == ssa.Value(h.Params[0]) })
+							}
+						}
+					}
+				}
+			}
 			bo, isB := g.Cond.(*ssa.BinOp)
 			if !isB {
 				continue
